@@ -16,7 +16,7 @@ ASSUMPTIONS = [
     "template lists given to the incremental classifier may carry arbitrary distinct integer class ids (gaps, 1-based), as produced by dropping or curating representatives",
 ]
 RULE = {
-    "quick": "28 six-item pools (20 corpus windows + 8 synthetic: tied elements / charges, disconnected centres repeating a component, the null graph three times, items differing only in hcount) x all 720 list orders through GraphCluster.fit (attribute none / invariant string; tuple and descending-list values on every sixth order), BatchCluster.fit with batch sizes {1,2,3,6,None} x "
+    "quick": "29 six-item pools (20 corpus windows + 9 synthetic: two shapes with equal atoms + bonds, tied elements / charges, disconnected centres repeating a component, the null graph three times, items differing only in hcount) x all 720 list orders through GraphCluster.fit (attribute none / invariant string; tuple and descending-list values on every sixth order), BatchCluster.fit with batch sizes {1,2,3,6,None} x "
     "template lists {empty, previous representatives, one representative dropped, ids shifted}, two-batch classification (representatives of a first fit, with no / an empty library, classify the second half) for every value shape, and incremental lib_check over all 720 arrival orders with the partition checked after every arrival; "
     "non-trivial = pool has a class with >=2 members",
     "thorough": "all 98 corpus windows + synthetic pools",
@@ -120,6 +120,18 @@ def synthetic_pools():
 
     g2 = eg.to_nx(reps[1], SYN_V, SYN_E, node_ids=list(range(60, 60 + len(reps[1][0]))))
     pools.append([with_h(g, [2]), with_h(g, [3]), with_h(relabel(g, 40), [0, 1, 3]), with_h(g2, [1]), with_h(g2, [0, 2]), with_h(change_charge(g), [3])])
+    # two shapes with different (atoms, bonds) and the same atoms + bonds: a four-ring with a chord (4, 5) and a five-chain (5, 4)
+    def shape(edges, base, hetero):
+        G = nx.Graph()
+        for u, v in edges:
+            for x in (u, v):
+                G.add_node(base + x, element="O" if x == hetero else "C", charge=0)
+            G.add_edge(base + u, base + v, order=(1.0, 2.0) if (u, v) == edges[0] else (1.0, 1.0))
+        return G
+
+    ring = [(0, 1), (1, 2), (2, 3), (3, 0), (0, 2)]
+    chain = [(0, 1), (1, 2), (2, 3), (3, 4)]
+    pools.append([shape(ring, 1, 3), shape(chain, 11, 4), shape(ring, 21, 3), shape(chain, 31, 4), change_charge(shape(ring, 41, 3)), change_order(shape(chain, 51, 4))])
     return pools
 
 
@@ -140,7 +152,7 @@ def gen(tier, seed):
     wins = list(range(nwin)) if tier != "quick" else [(5 * k + seed) % nwin for k in range(20)]
     for w in sorted(set(wins)):
         yield w
-    for k in range(8):
+    for k in range(9):
         yield nwin + k
 
 
@@ -246,7 +258,11 @@ def check(widx):
                     for bs in (None, 2):
                         try:
                             d1, t1 = bc.fit(data_of(order[:3], kind), lib0, rule_key="gml", attribute_key="sig" if kind else None, batch_size=bs)
-                            d2, t2 = bc.fit(data_of(order[3:], kind), t1, rule_key="gml", attribute_key="sig" if kind else None, batch_size=bs)
+                            second = data_of(order[3:], kind)
+                            if bs == 2:
+                                # the second batch was clustered on its own before: its entries carry batch-local class ids
+                                second = [dict(e) for e in gc.fit(second, rule_key="gml", attribute_key="sig" if kind else None)]
+                            d2, t2 = bc.fit(second, t1, rule_key="gml", attribute_key="sig" if kind else None, batch_size=bs)
                         except Exception as e:
                             fails.append(Fail("two_batches", f"attr={kind} library={lib0} batch_size={bs} order={order}: {type(e).__name__}: {e}", "classes", key_extra="two_batches"))
                             dead.add("two_batches")
